@@ -76,10 +76,28 @@ func preamble() []*storex.Op {
 	}
 }
 
+// corpus replays, on every run, the fixed witnesses of the two recorded findings of C03
+// (known_findings.txt: kv:list-nul-terminated-prefix, kv:delete-tree-nul-terminated-prefix).
+func corpus(run *hx.Run, mons func() []storex.Monitor) {
+	h := storex.NewHistory(run, run.RNG.Fork(0xC03), mons(), false)
+	set := func(idx uint64, k string) {
+		h.Step(&storex.Op{Kind: "kv", Idx: idx, KV: &storex.KVArg{Verb: "set", Key: k, Val: []byte("v1")}})
+	}
+	set(5, "a")
+	set(6, "a/b")
+	set(7, "a\x00b")
+	h.ReadSweep([]string{"a", "a\x00"})
+	h.Step(&storex.Op{Kind: "kv", Idx: 8, KV: &storex.KVArg{Verb: "delete-tree", Key: "a\x00"}})
+	h.ReadSweep([]string{"a", "a\x00"})
+	h.Finish()
+	run.Tag("corpus:nul-terminated-prefix")
+}
+
 func main() {
 	run := hx.Start()
 	run.Rule = "every result line, every full table dump (after every command) and every KVSGet/KVSList answer of the real state store equals the Lean model's; Go reference map + no-op/CreateIndex/LockIndex laws hold on the implementation"
 	mons := func() []storex.Monitor { return []storex.Monitor{&storex.RefMap{}} }
+	corpus(run, mons)
 	storex.RandomHistories(run, []*storex.Profile{kvHeavy, lockHeavy, kvMalformed}, run.Scale(400, 3000), 30, mons, true)
 	storex.Exhaustive(run, preamble, alphabet(), run.Scale(2, 3), mons, run.Thorough())
 	run.Finish()
